@@ -1,5 +1,10 @@
 package b2fx
 
-import "runtime/debug"
+import (
+	"runtime/debug"
+	"time"
+)
 
 func stack() []byte { return debug.Stack() }
+
+func timeAfter(d time.Duration) <-chan time.Time { return time.After(d) }
